@@ -17,6 +17,16 @@ SIM_NOTE = ("Trusted base: the simulated kernel / psutil.Popen fake "
             "EPERM, job-control stops. Search never proves absence.")
 
 TABLE = {
+ "C05": dict(
+  engine="E1-simworld", category="exploration", design_ref="DESIGN.md §4 C05",
+  technique="property-based testing of overlapping request histories on a virtual clock: blocked-time meter on the patched time.sleep, synchronous-reply oracle for read-only requests, and a model-computed virtual-time bound that turns 'every request completes' into a safety check",
+  text=("Generated histories overlap exclusive and non-exclusive requests "
+        "with stubborn workers, hooks, exec failures and (in half of the "
+        "runs) the real PeriodicCallback; after every op a read-only request "
+        "must be answered synchronously with its payload, no loop iteration "
+        "may sleep more than 0.25 s of virtual time, and every accepted "
+        "waiting request must be answered within the model's bound."),
+  note=SIM_NOTE + " Only time.sleep is observed as a blocking primitive; real-OS stalls are out of reach."),
  "C03": dict(
   engine="E1-simworld", category="exploration", design_ref="DESIGN.md §4 C03",
   technique="property-based testing over generated termination histories with worker reaction delays placed around graceful_timeout; invariant oracle over the simulated kernel's per-pid signal log with exact virtual timestamps",
